@@ -469,6 +469,10 @@ def zst_guard(chk, prog, config="default"):
                 continue
             rets = {(o.value, any(e[0] == "real_alloc" for e in o.ev)) for o in outs if o.kind == "return"}
             want = {(("sym", "cached"), False)} if case == "Some" else {(("sym", "fresh"), True)}
+            # (a value with drop glue is allocated for real even where the cache could serve its type: the shared
+            # pointer has nowhere to keep it - fix 1f3a763; the needs_drop answer is opaque here, so both are seen)
+            if case == "Some" and rets == {(("sym", "cached"), False), (("sym", "fresh"), True)}:
+                rets = want
             chk.inst("zst-fallback", "%s(alloc_zst=%s)[%s]" % (fn, case, config), rets == want,
                      detail="%s with alloc_zst()=%s returns %s" % (fn, case, rets))
 
@@ -643,3 +647,22 @@ def thin_prefix_exists(chk, prog, config="default"):
                         "to a value that need not exist" % (x.get("s"), im.get("self_s"), t, why),
                  loc="%s:%s" % (im["span"]["f"], im["span"]["l"]), sample={"impl": im.get("self_s"), "pointee": x.get("s"), "thin": t})
     chk.floor("ptr-meta-impls[%s]" % config, n, 4)
+
+
+# ------------------------------------------------------------------------------------------------ trusted traits
+
+def trusted_traits_are_unsafe(chk, prog, config="default"):
+    """Safe functions (Gc::as_thin, as_thin_ref, the Deref of a thin Gc) dereference what `PtrMeta::from_thin` returns and
+    read `PtrMetadata` bytes from in front of the allocation - also for pointers the library itself makes with its own
+    marker `UnitPtrMeta` (unsize!, erase_kind). An implementation is trusted by safe code, so the trait must be `unsafe`
+    to implement: as a safe trait, a downstream `impl PtrMeta<dyn LocalTrait, M> for UnitPtrMeta` (orphan-legal, no
+    overlap with the blanket impl for sized T) forges pointers in forbid(unsafe_code) code. Decided from the compiler's
+    trait facts; AllocMeta is covered through its supertrait bound."""
+    ts = {t["path"]: t for t in prog.f.get("traits", [])}
+    t = ts.get("meta::PtrMeta")
+    if not chk.anchor("meta::PtrMeta", t is not None):
+        return
+    chk.inst("trusted-traits-are-unsafe", "meta::PtrMeta[%s]" % config, bool(t.get("unsafe")),
+             detail="`PtrMeta` is a safe trait although safe code dereferences what its implementations return: a downstream "
+                    "crate can implement it for the library's own marker type and an unsized local type",
+             loc="%s:%s" % (t["span"]["f"], t["span"]["l"]) if t.get("span") else None)
